@@ -10,10 +10,10 @@ import gzip
 
 from vf.ref.gfa import revcomp
 
-REF_NAMES = ["chr1", "chrX", "chr12", "chr2", "chrM", "chr1_KI270706v1_random", "CHM13.chr7", "ref#0#chr3", "chr6-alt_fix"]
+REF_NAMES = ["chr1", "chrX", "chr12", "chr2", "chrM", "chr1_KI270706v1_random", "CHM13.chr7", "ref#0#chr3", "chr6-alt_fix", "hs1", "ptg000001l"]
 HAP_NAMES = ["HG002#1#JAHKSE010000016.1", "NA20129#1#JAHEPE010000248.1", "HG03579#2#JAGYVT010000265.1",
              "HG01106#2#JAHAMB010000116.1", "GRCh38#0#chr1", "HG00438#2#h2tg_000011l.9", "NA19240.mat_ctg7",
-             "HG02257#1#JAGYVH010000045.1", "NA12878-pat#1#ctg-5"]
+             "HG02257#1#JAGYVH010000045.1", "NA12878-pat#1#ctg-5", "mat_ctg12", "utg000021l", "e", "r"]
 
 FLIP = {"+": "-", "-": "+"}
 FW = {"+": ">", "-": "<"}
